@@ -546,6 +546,7 @@ def exec_task(task):
         r = results[len(results) // 2]
         out["sample"] = {"case": case_tag(case), "schedule": r.schedule, "outcome": r.outcome,
                          "caller": (r.system_info or {}).get("result")}
+        out["xsample"] = r.schedule if len(r.schedule) <= 70 else None
     npool, busy = pool_threads()
     out["threads_left"] = threading.active_count() - 1 - npool + busy
     out["wall"] = round(time.time() - t0, 2)
@@ -706,6 +707,76 @@ def build_threaded_tasks(ctx):
     return tasks
 
 
+# ----- extraction cross-check inside Coq (kernel vm_compute) ------------------------------------------
+
+def coq_net(net):
+    """(Coq term of the net, Coq term of the initial state) for the tokens of a derived network"""
+    it = iter(net)
+    nx = lambda: next(it)
+    b = lambda x: "true" if x else "false"
+    nmb = nx()
+    boxes = []
+    for _ in range(nmb):
+        cap, lz, ns = nx(), nx(), nx()
+        drives = [nx() for _ in range(ns)]
+        boxes.append("(mk_mbox %d%%nat %s [%s])" % (cap, b(lz), "; ".join(b(d) for d in drives)))
+    nth = nx()
+    threads = []
+    pair = lambda a, c: "(%d%%nat, %d%%nat)" % (a, c)
+    for _ in range(nth):
+        k = nx()
+        if k == 0:
+            nsrc, out, nin = nx(), nx(), nx()
+            ins = [pair(nx(), nx()) for _ in range(nin)]
+            threads.append("(mk_thread (KStage %d%%nat %d%%nat) [%s])" % (nsrc, out, "; ".join(ins)))
+        elif k == 1:
+            mb, sb, rc = nx(), nx(), nx()
+            threads.append("(mk_thread (KSaver %s) [%s])" % (b(rc), pair(mb, sb)))
+        elif k == 2:
+            mb, sb = nx(), nx()
+            threads.append("(mk_thread KDiscard [%s])" % pair(mb, sb))
+        elif k == 3:
+            mb, sb, no = nx(), nx(), nx()
+            outs = ["(%d%%nat, %s)" % (nx(), b(nx())) for _ in range(no)]
+            threads.append("(mk_thread (KDivider [%s]) [%s])" % ("; ".join(outs), pair(mb, sb)))
+        else:
+            mb, sb, relay = nx(), nx(), nx()
+            threads.append("(mk_thread (KMain %s) [%s])" % (b(relay), pair(mb, sb)))
+    ft, fp, fc = nx(), nx(), nx()
+    ck, cc, ce = nx(), nx(), nx()
+    f1, f2, f3 = nx(), nx(), nx()
+    fault = "None" if ft < 0 else "(Some (%d%%nat, %d%%nat, %d%%nat))" % (ft, fp, fc)
+    cfault = "None" if ck < 0 else "(Some (%d%%nat, %s, %d%%nat))" % (ck, b(cc), ce)
+    lst = lambda: "[" + "; ".join("%d%%nat" % nx() for _ in range(nx())) + "]"
+    kill, join, sav = lst(), lst(), lst()
+    nt = "(mkNet %s %s %s %s %s %s %s %s)" % (fault, cfault, kill, join, sav, b(f1), b(f2), b(f3))
+    st0 = "(ninit %s [%s] [%s])" % (nt, "; ".join(boxes), "; ".join(threads))
+    return nt, st0
+
+
+def kernel_crosscheck(ctx, picks):
+    """picks: list of (net tokens, schedule): the per-step observations computed by the extracted OCaml model must
+    equal what Coq's vm_compute gives for the same Gallina definitions"""
+    if not picks:
+        return
+    lines = [model_line(net, sched) for net, sched in picks]
+    outs = lib.run_model("C06", lines)
+    eqs = []
+    for (net, sched), mo in zip(picks, outs):
+        parts, dis, term, oc, en, init = split_model(mo)
+        nt, st0 = coq_net(net)
+        rhs = "[" + "; ".join("[" + "; ".join("(%s)" % x for x in o.split()) + "]" for o in parts) + "]"
+        sch = "[" + "; ".join("%d%%nat" % t for t in sched[:len(parts)]) + "]"
+        eqs.append("nrun_obs %s %s %s = (%s : list (list Z))" % (nt, st0, sch, rhs))
+    n, fails = lib.coq_crosscheck(
+        "C06", "From SV Require Import Base.Prelude Model.Mailbox Model.MailboxFail Model.C06Run.", eqs)
+    ctx.coverage.setdefault("kernel_crosscheck", {})["threaded"] = {"equations": n, "failed_files": len(fails)}
+    if fails:
+        ctx.violation("threaded", "extracted model and Coq vm_compute disagree: " + fails[0][-400:],
+                      {"input": "corr:C06/threaded/extraction-crosscheck", "log": fails[0]}, no_failing_input=True)
+
+
+
 def witness_path(name):
     return os.path.join(lib.VERIF, "corpus", "C06", name + ".json")
 
@@ -778,6 +849,10 @@ def unit_threaded(ctx):
     for k, v in suppressed.items():
         dist["known_class_%s_runs" % k] = v
     ctx.count("threaded", n_eval, n_nontriv, dist)
+    xs = [(r["net"], r["xsample"]) for r in results if r.get("xsample") and r.get("net") and not r["n_disagreements"]]
+    if xs:
+        idx = sorted(ctx.rng.sample(range(len(xs)), min(30 if not (ctx.thorough or ctx.escalated()) else 120, len(xs))))
+        kernel_crosscheck(ctx, [xs[i] for i in idx])
     if suppressed:
         ctx.notes.append("threaded: failing runs inside the known defect classes (their canonical witnesses were "
                          "replayed and reported above): %s" % suppressed)
